@@ -188,6 +188,10 @@ func (r *ingressController) buildCanaryIngress(stableIngress *netv1.Ingress) *ne
 	for ir := 0; ir < len(stableIngress.Spec.Rules); ir++ {
 		var hasStableServiceBackendRule bool
 		stableRule := stableIngress.Spec.Rules[ir]
+		if stableRule.HTTP == nil {
+			// a rule without an http section has no paths to copy
+			continue
+		}
 		canaryRule := netv1.IngressRule{
 			Host: stableRule.Host,
 			IngressRuleValue: netv1.IngressRuleValue{
@@ -196,6 +200,10 @@ func (r *ingressController) buildCanaryIngress(stableIngress *netv1.Ingress) *ne
 		}
 		// Update all backends pointing to the stableService to point to the canaryService now
 		for ip := 0; ip < len(stableRule.HTTP.Paths); ip++ {
+			if stableRule.HTTP.Paths[ip].Backend.Service == nil {
+				// resource backend, cannot point at the stable Service
+				continue
+			}
 			if stableRule.HTTP.Paths[ip].Backend.Service.Name == r.conf.StableService {
 				hasStableServiceBackendRule = true
 				if stableRule.Host != "" {
